@@ -28,7 +28,7 @@ def gen_caps(rng, p_fault=0.5):
     n = rng.randint(3, 17)
     vec = [rng.choice([4, 4, 4, 8, 16, 32, 64]) for _ in range(n)]
     return {'default': 16, 'vec': vec, 'plus3': rng.random() < 0.5,     # False: the documented length len(circuit.lines)
-            'dtype': rng.choice(['list', 'list', 'int64', 'int32', 'uint32', 'uint16'])}
+            'dtype': rng.choice(['list', 'list', 'int64', 'int32', 'uint32', 'uint16', 'uint8', 'int8'])}
 
 
 def gen_stim(rng, n=None):
@@ -77,6 +77,7 @@ def gen_actrl(rng, p=0.35):
         elif r < 0.35:      # net toggles: rise and fall weights cancel
             w = rng.choice([1, 1, 2, 5])
             rows.append([rng.randrange(n_acc), w, -w] if rng.random() < 0.5 else [rng.randrange(n_acc), -w, w])
+        elif r < 0.42: rows.append([rng.randrange(n_acc), rng.choice([16777217, 1]), rng.choice([16777217, 3])])      # 2**24+1: exact only in integer arithmetic
         else: rows.append([rng.randrange(n_acc), rng.choice([0, 1, 1, 2, 5, -1, -3]), rng.choice([0, 1, 1, 3, 7, -2])])
     if rng.random() < 0.3:      # accumulator indices need not be contiguous
         for r_ in rows:
